@@ -1,11 +1,12 @@
-"""C03 -- extract preserves behaviour or is refused (VGC rules R03.1-R03.15)."""
+"""C03 -- extract preserves behaviour or is refused (VGC rules R03.1-R03.17)."""
 from __future__ import annotations
 
 import ast
 from typing import Dict, List, Optional, Set
 
 from .. import vgc as vgc_mod
-from ..core import AnalysisError, call_name, calls_in, is_self_attr, param_names, walk_local
+from ..cfg import CFG
+from ..core import AnalysisError, call_name, calls_in, is_self_attr, norm, param_names, walk_local
 from ..grammar import BINDS, CONDITIONAL, G, GENERATOR, LOOPS, SCOPES, TARGET_FIELDS
 
 EXPLANATION = (
@@ -21,6 +22,7 @@ EXPLANATION = (
     "summary, similar-code replacement and placement arithmetic are not decided."
     ' R03.14: after every filing of an in-region write (conditional or not) the loop-carried check is passed.'
 )
+EXPLANATION += ' R03.16: identifier characters.  R03.17: the loop-carried test sees reads that precede the region in the enclosing loop; loop_depth is lowered as it was raised.'
 EXPLANATION += ' R03.15: a function that remembers its answer under a key reads, in the computation of the remembered value, nothing of its parameters that the key does not contain (followed into the helpers it calls).'
 ASSUMPTIONS = [
     "the break/continue finder lacking AsyncFor and the missing scope cuts of the return counter only cause over-refusal, which the property allows: recorded as exceptions, not armed (R03.5 arms only the under-refusal direction: else clauses)",
@@ -481,4 +483,76 @@ def check(ctx, res) -> None:
     from .common import identifier_char_rule
 
     identifier_char_rule(ctx, res, "R03.16", ("rope.refactor.extract", "rope.refactor.similarfinder", "rope.refactor.wildcards"))
+    _loop_carried_reads_rule(ctx, res)
     memo_key_rule(ctx, res, "R03.15", ("rope.refactor.similarfinder", "rope.refactor.wildcards", "rope.refactor.extract"))
+
+
+def _loop_carried_reads_rule(ctx, res) -> None:
+    """R03.17: a variable written in the extracted region must come back from the new function when it is read AFTER the
+    region.  In a loop around the region "after" includes everything in the loop body that stands BEFORE the region: it
+    runs again in the next iteration.  (a) `_read_variable` files a read that precedes the region (`lineno < self.start`)
+    in a set of its own while a loop around the region is open, and the loop-carried test of `_written_variable` -- the one
+    under `loop_depth > 0` that adds to `postread` -- asks that set as well as the reads inside the region.  (b) the loop
+    context raises and lowers `loop_depth` under the SAME condition: lowered unconditionally, a loop that lies inside or
+    after the region takes the depth below the number of loops that are really open."""
+    idx = ctx.idx
+    coll = idx.need_class(COLLECTOR)
+    # by role, whatever the methods are called: the one that files into `self.read`, the one that files into
+    # `self.written`, the one that raises / lowers `self.loop_depth`
+    def adds_to(m, attr):
+        return any(isinstance(c.func, ast.Attribute) and c.func.attr == "add" and is_self_attr(c.func.value, attr) for c in calls_in(m.node))
+    rd = next((m for m in coll.methods.values() if adds_to(m, "read")), None)
+    wr = next((m for m in coll.methods.values() if adds_to(m, "written")), None)
+    lc = next((m for m in coll.methods.values() if any(isinstance(x, ast.AugAssign) and is_self_attr(x.target, "loop_depth") for x in walk_local(m.node))), None)
+    if rd is None or wr is None or lc is None:
+        raise AnalysisError("anchor=_FunctionInformationCollector._read_variable/_written_variable/_handle_loop_context missing")
+    # (a) sets filled with reads before the region
+    rcfg = CFG(rd.node)
+    pre_sets = set()
+    for nd in rcfg.nodes:
+        if nd.kind != "stmt" or nd.ast is None:
+            continue
+        for c in calls_in(nd.ast):
+            if isinstance(c.func, ast.Attribute) and c.func.attr == "add" and is_self_attr(c.func.value):
+                before = False
+                for t, pol in rcfg.guards(nd.id):
+                    if isinstance(t, ast.Compare) and len(t.ops) == 1 and pol:
+                        l, r, op = t.left, t.comparators[0], t.ops[0]
+                        if (is_self_attr(r, "start") and isinstance(op, ast.Lt)) or (is_self_attr(l, "start") and isinstance(op, ast.Gt)):
+                            before = True
+                if before:
+                    pre_sets.add(c.func.value.attr)
+    wcfg = CFG(wr.node)
+    carried = [nd for nd in wcfg.nodes if nd.kind == "stmt" and nd.ast is not None and any(
+        isinstance(c.func, ast.Attribute) and c.func.attr == "add" and is_self_attr(c.func.value, "postread") for c in calls_in(nd.ast))
+        and any(pol and any(is_self_attr(y, "loop_depth") for y in ast.walk(t)) for t, pol in wcfg.guards(nd.id))]
+    if not carried:
+        raise AnalysisError("anchor=_written_variable: the loop-carried filing into postread not found")
+    asks_pre = False
+    for t in wcfg.nodes:
+        if t.kind == "test" and isinstance(t.ast, ast.Compare) and len(t.ast.ops) == 1 and isinstance(t.ast.ops[0], ast.In) \
+                and is_self_attr(t.ast.comparators[0]) and t.ast.comparators[0].attr in pre_sets:
+            for b, lab in wcfg.succ[t.id]:
+                if lab == "true" and any(nd.id in wcfg.reachable(b) for nd in carried):
+                    asks_pre = True
+    res.add("R03.17", "_written_variable|loop-carried-check-sees-reads-before-the-region", asks_pre, f"{wr.unit.rel}:{carried[0].lineno}",
+            f"the loop-carried test also asks the reads that precede the region in the enclosing loop ({sorted(pre_sets)})" if asks_pre else
+            "a write in the region is taken for loop-carried only when the REGION read the name before: a read that stands earlier in the enclosing loop "
+            "(`for i in r: print(a); a = i + 1` with the assignment extracted) runs again after the region, but the new function does not return the value "
+            "and the loop keeps printing the old one", function=wr.qualname)
+    # (b) paired update of loop_depth
+    lcfg = CFG(lc.node)
+    ups, downs = [], []
+    live = lcfg.reachable(lcfg.entry.id)  # (the copy of a `finally` block for an exit that cannot happen has no guards)
+    for nd in lcfg.nodes:
+        st = nd.ast
+        if nd.id in live and nd.kind == "stmt" and isinstance(st, ast.AugAssign) and is_self_attr(st.target, "loop_depth"):
+            conds = sorted(norm(t) + ("" if pol else "!") for t, pol in lcfg.guards(nd.id))
+            (ups if isinstance(st.op, ast.Add) else downs).append((nd, conds))
+    if not ups or not downs:
+        raise AnalysisError("anchor=_handle_loop_context: loop_depth is not raised and lowered here")
+    paired = all(any(c == u for _, u in ups) for _, c in downs)
+    res.add("R03.17", "_handle_loop_context|depth-lowered-as-it-was-raised", paired, f"{lc.unit.rel}:{downs[0][0].lineno}",
+            "loop_depth is lowered under the condition it was raised under" if paired else
+            "loop_depth is raised only for a loop that starts before the region but lowered after EVERY loop: a loop inside (or after) the region takes the depth "
+            "to zero or below while the enclosing loop is still open, and a loop-carried variable written after it is not returned", function=lc.qualname)
